@@ -477,7 +477,7 @@ def _eon():
 
 def replay_chunk(texts):
     EoN = _eon()
-    out = {"SUB": 0, "GTS": 0, "G": 0, "D": 0, "calls": 0, "nontrivial": 0, "problems": [], "never": {},
+    out = {"SUB": 0, "GTS": 0, "G": 0, "D": 0, "calls": 0, "nontrivial": 0, "problems": {}, "never": {},
            "r0_undefined": 0, "graphs_built": 0, "sub_by_series": {}, "samples": {}}
     for txt in texts:
         rec = parse_record(txt)
@@ -504,6 +504,7 @@ def replay_chunk(texts):
         out["nontrivial"] += 1 if nt else 0
         if nt and tag not in out["samples"]:
             out["samples"][tag] = rec
-        if p and len(out["problems"]) < 40:
-            out["problems"].extend(p)
+        for pr in p:      # first witness and a count per failure class
+            slot = out["problems"].setdefault(pr["key"], [pr, 0])
+            slot[1] += 1
     return out
